@@ -1,3 +1,7 @@
+mod common;
+mod gen;
+mod replay;
+mod rng;
 mod tables;
 
 fn main() {
@@ -6,8 +10,21 @@ fn main() {
     let args: Vec<String> = std::env::args().collect();
     match args.get(1).map(String::as_str) {
         Some("dump-tables") => print!("{}", tables::dump()),
+        Some("gen") if args.len() == 6 => {
+            gen::run(&args[2], &args[3], args[4].parse().unwrap_or(0), &args[5]);
+        }
+        Some("rerun") if args.len() >= 3 => {
+            // prints the protocol line of a recorded case with the implementation's current result
+            match replay::rerun(&args[2..].join(" ")) {
+                Some(l) => println!("{}", l),
+                None => {
+                    eprintln!("case not understood");
+                    std::process::exit(2);
+                }
+            }
+        }
         _ => {
-            eprintln!("usage: fqv dump-tables | gen <prop> <tier> <seed> <out> | replay <file>");
+            eprintln!("usage: fqv dump-tables | gen <prop> <tier> <seed> <outfile> | rerun <case…>");
             std::process::exit(2);
         }
     }
